@@ -34,7 +34,7 @@ def run(ctx):
     q = ctx.quick
     rng = ctx.rng
     ctx.model("MC_PageHinkley", "MC_PageHinkley%s.cfg" % ("" if q else "_deep"), require_actions=("Update", "TwinRestart"))
-    ctx.model("MC_Cusum", "MC_Cusum%s.cfg" % ("" if q else "_deep"), require_actions=("Update", "TwinRestart"))
+    ctx.model("MC_Cusum", "MC_Cusum%s.cfg" % ("" if q else "_deep"), require_actions=("Update", "TwinRestart", "Rst"))
     # exhaustive short sequences over the model's alphabet on the real classes
     n = 5 if q else 7
     ncfg = 4 if q else 10
@@ -83,6 +83,10 @@ def run(ctx):
             if kind == "PageHinkley":
                 for _ in range(rng.randint(0, 3)):
                     script.insert(rng.randrange(len(script)), ("reset",))
+            elif i % 2 == 0:
+                # reset() by the caller (a housekeeping reset, an ensemble resetting all of its members) once the statistics are known
+                for _ in range(rng.randint(1, 3)):
+                    script.insert(rng.randrange(p["burn_in"] + 2, len(script)), ("reset",))
             for _ in range(rng.randint(0, 3)):
                 script.insert(rng.randrange(1, len(script)), ("bad", rng.choice([np.array([[1.0, 2.0]]), [[1.0], [2.0]], np.zeros((2, 1))])))
             if i % 3 == 0:      # the very first call is refused (nothing is established yet, so it is the detector's own one-variable guard that refuses)
